@@ -50,6 +50,17 @@ CHECKS = {
              'suites, all 2^16 DNSKEY flag words, MySQL words with <= 2 flipped bits): compose succeeds, is accepted '
              'again in full, parses to an equal object and composes to the same bytes.',
         design='§5 C05'),
+    'C06': dict(
+        technique='exhaustive enumeration against an independent reference encoder (differential oracle), object '
+                  'side and wire side',
+        text='Object side: every TLS/SSL object within 1 (thorough 2) deviations of the seeds: compose == RFC layout '
+             'computed by tls_ref from the public fields (vector prefix width from the RFC ceiling), and '
+             'parse(RFC layout) recovers the fields. Wire side: every protocol version, every cipher suite (client and '
+             'server hello), every suite list of length <= 3 over {known, unknown, GREASE, both SCSVs}, session ids '
+             '0..32, ~150 extension bodies alone and in ordered pairs for client and server, certificate chains, '
+             'certificate requests with/without signature algorithms, alerts, records, SSL 2.0 records (2/3-byte '
+             'headers, padding 0/1/7): accepted and fields recovered.',
+        design='§5 C06'),
     'C07': dict(
         technique='exhaustive enumeration against an independent reference encoder/decoder (differential oracle)',
         text='Packets for every payload length 1..35000 x 3 record classes checked against RFC 4253 s6 directly '
@@ -106,6 +117,14 @@ CHECKS = {
              '(0-15 thorough) in separate processes and compared by digest; every ordered pair of a 48-object panel '
              'is serialised in one process and compared with a fresh process.',
         design='§5 C14'),
+    'C15': dict(
+        technique='exhaustive enumeration of client hello wire forms against an independent JA3 reference',
+        text='Client hellos built by the reference encoder: 6 versions, every suite list of length 1-3 over 6 codes, '
+             'every extension list of length 0-3 over 7 kinds (with duplicates) and absent, group and point-format '
+             'lists of length 1-2 over 4 codes, every combination of two (thorough: three) deviating sections; '
+             'ja3() == the published algorithm applied to the wire bytes by an independent reader, and unchanged by '
+             'compose+parse. Known findings are matched by deviation, not by input.',
+        design='§5 C15'),
     'C16': dict(
         technique='exhaustive enumeration of KEXINIT / key wire forms against reference digests',
         text='KEXINIT wire forms (built by the reference encoder) with every name-list of length <= 3 in each list '
